@@ -45,7 +45,7 @@ ApplyBefore(n, e, sib) ==
 
 Apply(n, e) ==
     CASE e.ev = "create_element" ->
-            R(CreateElement(n, e.ns, e.local, AttrRecs(e.attrs), e.template), e.id = Len(n) /\ AttrsDistinct(e.attrs), {})
+            R(CreateElement(n, e.ns, e.local, AttrRecs(e.attrs), e.template), e.id = Len(n) /\ QNamesDistinct(e.attrs), {})
       [] e.ev = "create_comment" -> R(Create(n, MkNode("comment", "", <<>>, <<>>, e.text, <<>>)), e.id = Len(n), {})
       [] e.ev = "create_pi" -> R(Create(n, MkNode("pi", "", <<>>, <<>>, e.data, e.target)), e.id = Len(n), {})
       [] e.ev = "append" -> IF Known(n, e.parent) /\ (e.k = "text" \/ Known(n, e.child)) THEN ApplyChild(n, e, e.parent) ELSE R(n, FALSE, {})
@@ -62,7 +62,7 @@ Apply(n, e) ==
               PreReparent(n, e.node, e.new_parent), {e.node, e.new_parent})
       [] e.ev = "add_attrs_if_missing" ->
             R(IF IsEl(n, e.target) THEN AddAttrsIfMissing(n, e.target, AttrRecs(e.attrs)) ELSE n,
-              PreElemOnly(n, e.target) /\ AttrsDistinct(e.attrs), {e.target})
+              PreElemOnly(n, e.target) /\ QNamesDistinct(e.attrs), {e.target})
       [] e.ev = "get_template_contents" ->
             IF PreTemplateContents(n, e.target)
             THEN LET t == TemplateContents(n, e.target) IN R(t.nodes, t.ret = e.ret, {e.target})
@@ -106,6 +106,10 @@ Step(e) ==
         /\ ((Judged("C19") /\ ~okC19) => Reject(e, "C19"))
         /\ cur' = NoTok
         /\ UNCHANGED <<nodes, dead, skipping, mode, metaId, metaIn>>
+    ELSE IF e.ev = "feed_ret" THEN
+        \* C04: a feed() that reports Done has consumed the whole queue
+        /\ ((Judged("C04") /\ e.ret = "done" /\ ~e.empty) => Reject(e, "C04"))
+        /\ UNCHANGED <<nodes, dead, skipping, mode, cur, metaId, metaIn>>
     ELSE IF e.ev = "trace_handles" THEN
         /\ dead' = dead \cup ((0..(Len(nodes) - 1)) \ Kept(nodes, e.ids))
         /\ UNCHANGED <<nodes, skipping, mode, cur, metaId, metaIn>>
